@@ -142,6 +142,9 @@ def r1(ctx):
     sends = [bi for bi, t in resp.calls() if callee_matches(t, r"mpsc::UnboundedSender::<.*>::send$", r"UnboundedSender::send$")]
     rule.check(len(sends) == 1 and must_pass(resp, sends, via_blocks=takes), "respond sends exactly once, on the taken sender", "respond|send",
                "TalkRequest::respond sends %d times or on a sender it did not take" % len(sends), loc=resp.loc(resp.line))
+    rule.check(bool(sends) and must_pass(resp, resp.return_blocks(), via_blocks=sends), "every path of respond that returns has sent the response", "respond|return-without-send",
+               "TalkRequest::respond can return without sending although it consumes the request (and Drop then finds no sender): the request gets no response at all",
+               loc=resp.loc(resp.line))
     # drop: send guarded by Some(take())
     dr = facts.one(r"<crate::service::TalkRequest as std::ops::Drop>::drop")
     rule.analysed(dr)
